@@ -58,6 +58,12 @@ def splitOn (sep : Nat) : Str → List Str
     | [] => [[c]]   -- unreachable
     | p :: ps => if c = sep then [] :: p :: ps else (c :: p) :: ps
 
+/-- `sep.join(parts)` for a one-character separator -/
+def joinSep (sep : Nat) : List Str → Str
+  | [] => []
+  | [p] => p
+  | p :: q :: rest => p ++ sep :: joinSep sep (q :: rest)
+
 /-- value of a list of digit values, most significant first -/
 def digitsVal (ds : List Nat) : Nat := ds.foldl (fun a v => a * 10 + v) 0
 
